@@ -108,8 +108,9 @@ def c02(r):
     if terms != [want]:
         out.append(F('c02-terminal-notification', 'listeners receive exactly one terminal notification',
                      dict(got=terms, state=label)))
-    if len(r.cleanups) != 1:
-        out.append(F('c02-cleanups', 'registered cleanups run exactly once', len(r.cleanups)))
+    if len(r.cleanups) != 1 or r.cleanups_other != {'raising': 1, 'last': 1}:
+        out.append(F('c02-cleanups', 'registered cleanups run exactly once',
+                     dict(first=len(r.cleanups), **r.cleanups_other)))
     try:
         p.add_cleanup(lambda: None)
         out.append(F('c02-not-closed', 'a terminated process is closed', None))
@@ -181,6 +182,12 @@ def c04(r):
             txt = repr(e)
         if txt not in texts:
             out.append(F('c04-kill-text', 'the kill text is recorded', dict(text=txt, requested=sorted(texts))))
+    # "... or EXCEPTED if that step fails": a step function that raised while the process was live excepts the process
+    for n, was_terminated in p._raised:
+        if not was_terminated and not (label == 'excepted' and isinstance(p.exception(), UserExc)):
+            out.append(F('c04-failed-step-not-excepted', 'the process ends EXCEPTED if the step fails, whatever was requested',
+                         dict(final=r.outcome(), raised=f'user{n}', ops=r.ops)))
+            break
     if live_cancels and not live_kills:
         if label == 'excepted' and not (isinstance(p.exception(), UserExc) and _user_exception_possible(r)):
             out.append(F('c04-cancel-excepted:' + excname(p.exception()),
